@@ -75,6 +75,12 @@ var retryableErrs []error = []error{
 
 var errorStrMap map[string]error = map[string]error{}
 
+func init() {
+	// context.DeadlineExceeded is retryable at the origin; map its message back to the
+	// sentinel so that it keeps its identity and retryability on the caller side of an RPC
+	errorStrMap[context.DeadlineExceeded.Error()] = context.DeadlineExceeded
+}
+
 func errorDef(str string, retryable bool) error {
 	err := &Error{
 		msg: str,
